@@ -251,6 +251,9 @@ def body(chk, db, cfgname):
         else:
             r6.bad(site, o.loc(), "operator()(Indices) does not return the element stored under Indices", cfgname)
 
+    r8 = chk.rule("C01-R8", "the container key IndexCombination2 is ordered by a strict total order on (Index1, Index2), and its ==/!= agree with it: every component G_ij is its own entry", "F8 guards (comparator bodies evaluated on all pairs of a small domain)", 1)
+    from checks.orders import check_key_class
+    check_key_class(r8, db, cfgname, "Pomerol::IndexCombination2", ["Index1", "Index2"], domain=(0, 1, 2, 3))
     r_idem = chk.rule("C01-R7", "prepare()/compute() are idempotent: the early-return level is the level the function establishes", "F1 pairing", 5)
     from checks.lehmann import check_status_guards
     check_status_guards(r_idem, db, cfgname, ("Pomerol::GreensFunction", "Pomerol::FieldOperator", "Pomerol::CreationOperator", "Pomerol::AnnihilationOperator", "Pomerol::FieldOperatorPart"))
